@@ -28,6 +28,9 @@ func init() {
 			obs = append(obs, c.KindTables()...)
 			obs = append(obs, c.NaturalTypes()...)
 			obs = append(obs, c.OmitEmptyTestsField()...)
+			obs = append(obs, c.TagWidths("nbt", "nbt/dynbt")...)
+			obs = append(obs, c.ClauseConsistency("nbt", "nbt/dynbt")...)
+			obs = append(obs, c.BitFields("nbt", "nbt/dynbt")...)
 			obs = append(obs, filterObs(c.RawRead(), func(o core.Ob) bool { return strings.HasPrefix(o.Key, "nbt.") || strings.HasPrefix(o.Key, "nbt/") })...)
 			return obs
 		},
@@ -41,6 +44,8 @@ func init() {
 			obs = append(obs, c.NaturalTypes()...)
 			obs = append(obs, filterObs(c.MarshalerContract(), func(o core.Ob) bool { return strings.HasPrefix(o.Key, "nbt") })...)
 			obs = append(obs, c.AppendOwnership("nbt", "nbt/dynbt")...)
+			obs = append(obs, c.FreshElements("nbt", "nbt/dynbt")...)
+			obs = append(obs, c.TagWidths("nbt", "nbt/dynbt")...)
 			return obs
 		},
 	}
@@ -49,6 +54,7 @@ func init() {
 		Run: func(c *Ctx) []core.Ob {
 			obs := c.SNBTSuffix()
 			obs = append(obs, c.SNBTLiteralWidths()...)
+			obs = append(obs, c.RuneTruncation("nbt")...)
 			obs = append(obs, filterObs(c.TagDispatch("nbt"), func(o core.Ob) bool { return strings.Contains(o.Key, "StringifiedMessage") })...)
 			// scope: what the exported text entry points reach inside package nbt (call graph, not names)
 			var rootNames []string
@@ -78,6 +84,7 @@ func init() {
 		Run: func(c *Ctx) []core.Ob {
 			obs := c.CipherWiring()
 			obs = append(obs, c.NoRetainedParamSlices("net/CFB8")...)
+			obs = append(obs, c.BlockSlices("net/CFB8")...)
 			return obs
 		},
 	}
